@@ -11,6 +11,7 @@ import (
 	"hop.computer/hop/certs"
 	"hop.computer/hop/keys"
 	"hop.computer/hop/pkg/thunks"
+	"hop.computer/hop/portforwarding"
 )
 
 // Target server: a hop server that a delegate hop client
@@ -96,4 +97,28 @@ func (sess *hopSession) checkCmd(cmd string, shell bool) (sessID, error) {
 		}
 	}
 	return 0, fmt.Errorf("no auth grant for cmd: %s", cmd)
+}
+
+// checks if the session has an auth grant to start a port forwarding of the
+// requested type (portforwarding.PfLocal or portforwarding.PfRemote)
+func (sess *hopSession) checkPF(fwdType byte) error {
+	var want authgrants.GrantType
+	switch fwdType {
+	case portforwarding.PfLocal:
+		want = authgrants.LocalPF
+	case portforwarding.PfRemote:
+		want = authgrants.RemotePF
+	default:
+		return fmt.Errorf("unknown port forwarding type %d", fwdType)
+	}
+	sess.actionsLock.Lock()
+	defer sess.actionsLock.Unlock()
+	for i, ag := range sess.authorizedActions {
+		if now := thunks.TimeNow(); !now.Before(ag.StartTime) && now.Before(ag.ExpTime) && ag.GrantType == want {
+			// remove from authorized actions and return
+			sess.authorizedActions = slices.Delete(sess.authorizedActions, i, i+1)
+			return nil
+		}
+	}
+	return fmt.Errorf("no auth grant for port forwarding type %d", fwdType)
 }
